@@ -84,11 +84,16 @@ def variant_spec(spec, v, i):
     return s
 
 
-def make_bt(bt, template, vs):
+def make_inputs(vs):
     data = R.frame(vs["prices"], vs["dates"])
     add = {}
     if vs.get("bidoffer"):
         add["bidoffer"] = R.frame(vs["bidoffer"], vs["dates"])
+    return data, add
+
+
+def make_bt(bt, template, vs, inputs=None):
+    data, add = inputs if inputs is not None else make_inputs(vs)
     kw = {}
     if vs["comm"][0]:
         kw["commissions"] = E.make_comm(*vs["comm"])
@@ -126,13 +131,15 @@ def run_case(ctx, bt, case):
     inputs = [None] * k
     if case["interleave"]:
         for i in case["order"]:
-            bts[i], d, a = make_bt(bt, template, vspecs[i])
-            inputs[i] = (d, a, canon(d), canon(a))
+            d, a = make_inputs(vspecs[i])
+            inputs[i] = (d, a, canon(d), canon(a))      # as handed over, before the constructor has seen them
+            bts[i], d, a = make_bt(bt, template, vspecs[i], (d, a))
             run_one(bts[i], spec["global_seed"] + i)
     else:
         for i in range(k):
-            bts[i], d, a = make_bt(bt, template, vspecs[i])
+            d, a = make_inputs(vspecs[i])
             inputs[i] = (d, a, canon(d), canon(a))
+            bts[i], d, a = make_bt(bt, template, vspecs[i], (d, a))
         for i in case["order"]:
             run_one(bts[i], spec["global_seed"] + i)
     ctx.classes.add((len(spec["tree"]["kids"]), tuple(d[0] for d in spec["tree"]["stack"]), k, tuple(case["order"]), case["interleave"]))
@@ -219,6 +226,56 @@ def child_runs(ctx, bt, specs):
                           % ([x[0] for x in rs], [x[1]["final"] for x in rs], [x[1]["universe"] for x in rs]), {"child_spec": spec})
 
 
+def shared_dict_case(ctx, bt, rng):
+    """one `additional_data` dict object reused for several backtests, an entry replaced between the constructions, all of them
+    constructed first and run afterwards: each backtest must give what it gives alone with the values it was constructed with, and
+    the caller's dict must still hold the caller's objects"""
+    spec = R.gen_run_spec(rng, T=rng.randint(6, 12))
+    if not spec.get("bidoffer"):
+        spec["bidoffer"] = {t: [0.25] * len(spec["dates"]) for t in spec["tickers"]}
+    spec["global_seed"] = rng.randint(0, 10 ** 6)
+    template = R.build_strategy(bt, spec)
+    levels = [0.0, 0.25, 1.0][: rng.randint(2, 3)]
+    shared = {}
+    bts, frames = [], []
+    data = R.frame(spec["prices"], spec["dates"])
+    for lv in levels:
+        fr = R.frame({t: [lv] * len(spec["dates"]) for t in spec["tickers"]}, spec["dates"])
+        shared["bidoffer"] = fr
+        frames.append((fr, canon(fr)))
+        kw = {}
+        if spec["comm"][0]:
+            kw["commissions"] = E.make_comm(*spec["comm"])
+        bts.append(bt.Backtest(template, data, initial_capital=spec["capital"], integer_positions=spec["integer"], additional_data=shared,
+                               progress_bar=False, **kw))
+    rd = {"case": {"spec": spec, "variants": [{"capital": spec["capital"], "same_data": True, "integer": spec["integer"], "comm": spec["comm"]}],
+                   "order": [0], "interleave": True}, "shared_dict": levels}
+    if shared.get("bidoffer") is not frames[-1][0]:
+        ctx.violation("C11/input-dict-mutated", "the additional_data dict passed to Backtest no longer holds the caller's frame under 'bidoffer' "
+                      "(%d rows, the caller's has %d)" % (len(shared["bidoffer"]), len(frames[-1][0])), rd)
+    for fr, c0 in frames:
+        if canon(fr) != c0:
+            ctx.violation("C11/input-frame-mutated", "a bid/offer frame handed to Backtest changed", rd)
+    for b in bts:
+        run_one(b, spec["global_seed"])
+    for lv, b in zip(levels, bts):
+        fr = R.frame({t: [lv] * len(spec["dates"]) for t in spec["tickers"]}, spec["dates"])
+        kw = {}
+        if spec["comm"][0]:
+            kw["commissions"] = E.make_comm(*spec["comm"])
+        sb = bt.Backtest(R.build_strategy(bt, spec), R.frame(spec["prices"], spec["dates"]), initial_capital=spec["capital"],
+                         integer_positions=spec["integer"], additional_data={"bidoffer": fr}, progress_bar=False, **kw)
+        run_one(sb, spec["global_seed"])
+        if not (hasattr(sb.strategy, "data") and hasattr(b.strategy, "data")):
+            continue
+        df = S.first_diff(S.node_histories(bt, sb.strategy), S.node_histories(bt, b.strategy))
+        ctx.count("shared-dict-backtests")
+        if df is not None:
+            ctx.violation("C11/order-dependence:shared-input-dict", "backtest constructed with bid/offer %r from a reused additional_data dict (entry replaced "
+                          "afterwards, run later) differs from the same backtest alone: %s" % (lv, df), rd)
+            return
+
+
 def session_protocol(ctx, bt, n):
     """`session`: random schedules of constructions and (repeated) runs over one template on the real code vs the model's
     `Session.steps`: the has_run flag of every backtest after the schedule; the real side also counts how often each backtest's
@@ -282,6 +339,12 @@ def session_protocol(ctx, bt, n):
 
 
 def run(ctx, bt, scale=1):
+    for _ in range(ctx.scale(12, 200) * scale):
+        ctx.evaluations += 1
+        try:
+            shared_dict_case(ctx, bt, ctx.rng)
+        except Exception as e:  # noqa
+            ctx.count("shared-dict-case-raised:" + E.classify_exc(e))
     if scale == 1:
         session_protocol(ctx, bt, ctx.scale(25, 400))
     specs = []
@@ -307,6 +370,10 @@ def search(ctx, bt):
 
 def replay(bt, data, ctx):
     case = data["case"]
+    if "shared_dict" in case:
+        import random as _r
+        shared_dict_case(ctx, bt, _r.Random(0))
+        return
     if "child_spec" in case:
         child_runs(ctx, bt, [case["child_spec"]])
     else:
